@@ -254,18 +254,18 @@ func worldAt(dir string, spec WorldSpec, seed uint64, fresh bool) *World {
 // ---- verifier side ---------------------------------------------------------------------------------
 
 type crashState struct {
-	Keys   []string          `json:"keys"`
-	Vals   map[string]uint64 `json:"vals"`   // key -> write id of the complete content
-	Bad    map[string]string `json:"bad"`    // key -> what is wrong with its content
-	OpenErr string           `json:"open_err,omitempty"`
+	Keys    []string          `json:"keys"`
+	Vals    map[string]uint64 `json:"vals"` // key -> write id of the complete content
+	Bad     map[string]string `json:"bad"`  // key -> what is wrong with its content
+	OpenErr string            `json:"open_err,omitempty"`
 }
 
 type verifyOut struct {
 	First, Second crashState
-	Acked    []int  `json:"acked"`
-	InFlight int    `json:"inflight"` // op index or -1
-	Viol     *Violation `json:"viol,omitempty"`
-	Mutations uint64 `json:"mutations"`
+	Acked         []int      `json:"acked"`
+	InFlight      int        `json:"inflight"` // op index or -1
+	Viol          *Violation `json:"viol,omitempty"`
+	Mutations     uint64     `json:"mutations"`
 }
 
 func parseCrashLog(path string) (acked []int, classes map[int]string, inflight int, muts []string, done bool) {
